@@ -2,7 +2,7 @@
     This file contains only the pinned statements; the model is Derive/DeriveModel.v, the proofs and
     the specification vocabulary ([shape_spec], [guar_nodes], [wf_nodes], [frame_nodes], [field_at],
     [names_disjoint]) are in Derive/DeriveProofs.v. *)
-From ClapModel Require Import Base.Bytes Base.Utf8.
+From ClapModel Require Import Base.Bytes Base.Utf8 Base.Machine.
 From ClapModel Require Import Parse.Cmd Parse.Build Parse.Valid Parse.Matcher Parse.Errors Parse.Parser.
 From ClapModel Require Import Value.PossibleValues.
 From ClapModel Require Import Derive.DeriveModel Derive.DeriveProofs.
@@ -10,7 +10,7 @@ From ClapModel Require Import ParseProofs.Actions ParseProofs.ActionsLoop ParseP
 From ClapModel Require Import Derive.DeriveCmd Derive.DeriveArgs Derive.DeriveParse Derive.DeriveUpdate Derive.DeriveAccept Derive.DeriveParseEx.
 From ClapModel Require Import Parse.Validator ParseProofs.Relations ParseProofs.ValidateTotal Derive.DerivePost Derive.DerivePostEx.
 From ClapModel Require Import ParseProofs.Dispatch Derive.LoopInv Derive.DeriveFlat Derive.DeriveTotal Derive.DeriveTotalEx.
-From ClapModel Require Import ParseProofs.KindSound Derive.DeriveUpdateLine Derive.DeriveUpdateLineEx.
+From ClapModel Require Import ParseProofs.KindSound Derive.DeriveUpdateLine Derive.DeriveUpdateLineEx Derive.DeriveDec.
 From Coq Require Import ZArith List.
 Import ListNotations.
 Open Scope N_scope.
@@ -568,3 +568,20 @@ Theorem C15_update_unoccurring_flat_nonvacuous :
   /\ field_at (d_nodes FlatEx.d) UpdateFlatEx.v1 (f_id FlatEx.fb) = Some (DOne (SvInt 3%Z)).
 Proof. split; [exact UpdateFlatEx.ex_unnamed|exact UpdateFlatEx.ex_update_flat]. Qed.
 Print Assumptions C15_update_unoccurring_flat_nonvacuous.
+
+(** * Round 3: the scalar hypothesis of the round trip, all element types (Derive/DeriveDec.v) *)
+
+(** the decimal printer and [str::parse::<i64>] are inverse on the whole i64 range (induction on the digits; the fuel of
+    [n_to_dec] suffices: 40 digits) *)
+Theorem C15_decimal_roundtrip : forall z, in_i64 z = true ->
+  parse_i64 (z_to_dec z) = Some z /\ utf8_valid (z_to_dec z) = true.
+Proof. exact parse_i64_print. Qed.
+Print Assumptions C15_decimal_roundtrip.
+
+(** [srt] holds for every element type: bool, String, u8, i64 and (under distinct UTF-8 names) value enums -- the
+    completion of [C15_roundtrip_scalars_partial]; with it [ok_nodes] is a condition on attributes and enum names only. *)
+Theorem C15_roundtrip_scalars :
+  (forall ic x, srt TBool ic x) /\ (forall ic x, srt TStr ic x) /\ (forall ic x, srt TU8 ic x) /\ (forall ic x, srt TI64 ic x)
+  /\ (forall e ic x, names_disjoint ic e -> Forall (fun v => utf8_valid (pv_name (vv_pv v)) = true) e -> srt (TEnum e) ic x).
+Proof. exact scalars_roundtrip_all. Qed.
+Print Assumptions C15_roundtrip_scalars.
